@@ -31,6 +31,8 @@ func runC04(c *Ctx) {
 	c04HandlerShape(c)
 	c.R.Rule("serialisation", "Server.ServeHTTP registers a deferred recover before Transport.Do; the websocket operation goroutine registers a deferred recover that sends an error frame before it dispatches", 2)
 	c04Serialisation(c)
+	// the websocket operation goroutine registers its epilogue (which owns the recover) before it dispatches (C11/terminal-frame)
+	c11TerminalFrame(c)
 }
 
 // userCallKind classifies a call instruction in generated code as a call into user code.
